@@ -117,6 +117,16 @@ Layouts == {Scope1(P("p", TInt0), BFor(TInt0), "catPQ", FALSE),
             Scope1(P("p", RefB), ObjB({}, TRUE), "map", TRUE),
             TScope("B", {KO("B", ObjB({}, FALSE))})}
 
+\* property names of every class of the partition (Meta!PropNameClass) the constructors and the meta-schema
+\* admit; the name also occurs in the presence rules of its sibling and inside a nested inline object
+NameScope(nm) ==
+    TScope("A", {KO("A", TObject("A", {[P(nm, TInt(Some(0), Some(5), None)) EXCEPT !.display = Some(Dn)],
+                                        [P("q", TInt0) EXCEPT !.required_if = <<nm>>],
+                                        [P("z", TBool) EXCEPT !.conflicts = <<nm>>, !.required_if_not = <<nm, "q">>],
+                                        P("o", TObject("I1", {P(nm, TStr0), P("k", TStr0)}, FALSE, "map"))},
+                                  FALSE, "map"))})
+NameScopes == {NameScope(nm) : nm \in {x \in PropNames : NameOK(x)}}
+
 QuickProps == {t \in PropTypes :
                   \/ t.kind \in {"bool", "pattern", "any", "object", "scope", "ref", "oneof"}
                   \/ t.kind \in {"int", "float"} /\ (t.units.some <=> t.max.some)
@@ -129,8 +139,8 @@ ScopeUniverse ==
     IF Tier = "quick"
     THEN {Scope1(P("p", t), BFor(t), "map", FALSE) : t \in QuickProps}
          \cup {Scope1(p, BFor(TInt0), "map", FALSE) : p \in PropVariants(TInt0) \cup PropVariants(TStr0)}
-         \cup Layouts
-    ELSE UNION {{Scope1(p, BFor(t), "map", FALSE) : p \in PropVariants(t)} : t \in PropTypes} \cup Layouts
+         \cup Layouts \cup NameScopes
+    ELSE UNION {{Scope1(p, BFor(t), "map", FALSE) : p \in PropVariants(t)} : t \in PropTypes} \cup Layouts \cup NameScopes
 
 \* plugin schemas
 ScPlain == Scope1(P("p", TInt0), BFor(TInt0), "map", FALSE)
